@@ -187,6 +187,10 @@ func (s *serverStream) Context() context.Context {
 }
 
 func (s *serverStream) SendMsg(m any) error {
+	if s.ctx.Err() != nil {
+		// the call is over, nothing more reaches the client: in particular not the headers
+		return s.doneErr()
+	}
 	s.sendHeaderIfNeeded()
 	select {
 	case <-s.ctx.Done():
